@@ -250,3 +250,5 @@ PROPS['C19']['expect_probes'] = PROPS['C19']['expect_probes'] + ['F10_function_n
 PROPS['C15']['expect_probes'] = PROPS['C15']['expect_probes'] + ['backend_location_is_not_address_of_representation_0']
 PROPS['C14']['expect_probes'] = PROPS['C14']['expect_probes'] + ['zero_elements_requested_outside_window']
 PROPS['C12']['expect_probes'] = PROPS['C12']['expect_probes'] + ['callback_with_enum_wider_than_int']
+PROPS['C18']['expect_probes'] = PROPS['C18']['expect_probes'] + ['callback_entry_point_stored_in_sandbox_memory']
+PROPS['C10']['expect_probes'] = PROPS['C10']['expect_probes'] + ['grant_of_buffer_in_other_live_sandbox']
